@@ -804,6 +804,25 @@ def check_C20(ctx):
     nacc = sum(1 for c in cs.cases if (res.model.get(c.id) or {}).get('accept') == '1')
     ctx.extra['accept_reject'] = {'accepted': nacc, 'rejected': len(cs.cases) - nacc}
     spec_violations(ctx, 'shipped lexer/parser vs grammar')
+    # token numbering derived from the .g4 by the translator vs the generated JsonQuery.tokens
+    import re as _re
+    try:
+        gen = open(os.path.join(VERIF, 'coq', 'GrammarGen.v')).read()
+        mm = _re.search(r'g4_token_types[^\[]*\[(.*?)\]\.', gen, _re.S)
+        ours = {k[2:]: int(v) for k, v in _re.findall(r'\((K_\w+), (\d+)\)', mm.group(1))}
+        lit = {'LP': "'('", 'RP': "')'", 'PR': "'pr'", 'DOT': "'.'", 'MINUS': "'-'", 'LB': "'['", 'RB': "']'"}
+        theirs = {}
+        for line in open(os.path.join(REPO, 'parser', 'JsonQuery.tokens')):
+            line = line.strip()
+            if '=' in line:
+                k, v = line.rsplit('=', 1)
+                theirs[k] = int(v)
+        for k, v in ours.items():
+            name = lit.get(k, k)
+            if theirs.get(name) != v:
+                ctx.mismatches.append((Case('tokens', 'src', '(token %s)' % k, 'source'), 'token type of %s' % name, theirs.get(name), v))
+    except Exception as e:
+        ctx.notes.append('token numbering check failed: %r' % e)
     spread_samples(ctx, cs, res)
 
 # ----------------------------------------------------------------------------
